@@ -9,7 +9,7 @@ import itertools
 import os
 import random
 
-from .. import core, tlc
+from .. import core, tlc, apalache
 
 RESP = [1, 2, 3, 0, -1, -2, -3]
 ENTRIES = ["arena", "enc_read_n", "dec_read_n", "encode_read", "decode_read"]
@@ -27,6 +27,10 @@ def run_readn(res, work, tier, seed):
         raise core.ToolError("design check ReadNMC violated %s (specification error):\n%s" % (r["violated"], r["out"][-3000:]))
     res.add_mc("ReadNMC: transcribed read_n retry loop = declared result, all scripts <= %d x count 0..%d x attempts 1..%d"
                % (ms, mc, ma), r, consts.replace("\n", ";"))
+    t1 = apalache.check("ReadNInd", "IndInv", work, init="Init", length=0)
+    t2 = apalache.check("ReadNInd", "IndInv", work, init="IndInit", length=1)
+    res.data["notes"].append("Apalache (unbounded count / attempts / reader behaviour): calls <= max_attempts, got <= count, every "
+                             "request is in 1..count: inductive invariant of the retry loop (base %.1fs, step %.1fs)" % (t1, t2))
     rng = random.Random(seed * 7919 + 17)
     runs = []
     rid = 0
